@@ -119,7 +119,8 @@ structure SInvB (gh : Ghost) (st : St) (pending : List Nat) : Prop where
     st.term.refcount = (st.term.appRefs : Int) + (gh.term : Int) + 1
   term_free : st.term.freed = false → ¬ ((∃ r, LiveW st.tree 0 r) ∨ 0 ∈ pending) →
     st.term.refcount = (st.term.appRefs : Int) + (gh.term : Int) ∧ 1 ≤ st.term.refcount
-  term_dead : st.term.freed = true → ¬ ((∃ r, LiveW st.tree 0 r) ∨ 0 ∈ pending)
+  /-- a freed terminal: the root window is gone, nobody holds a reference -/
+  term_dead : st.term.freed = true → ¬ ((∃ r, LiveW st.tree 0 r) ∨ 0 ∈ pending) ∧ st.term.appRefs = 0 ∧ gh.term = 0
   simple : SimpleOk st
 
 /-- The state invariant: `SInvB`, and no live window holds more references than the application has taken (no
@@ -439,11 +440,11 @@ theorem releaseWin_ok {st : St} {d : Nat} {rest : List Nat} (inv : SInvB gh st (
             · exact absurd h'.symm hd0
             · exact .inr h')
       · simp only [setX_term, setX_tree, htm2, ht2]
-        intro hf h
-        exact inv.term_dead hf (by
+        intro hf
+        refine ⟨fun h => (inv.term_dead hf).1 (by
           rcases h with h | h
           · exact .inl h
-          · exact .inr (by simp [h]))
+          · exact .inr (by simp [h])), (inv.term_dead hf).2⟩
   unfold releaseWin
   simp only [hdrop, bind_ok]
   by_cases hd0 : d = 0
@@ -453,7 +454,7 @@ theorem releaseWin_ok {st : St} {d : Nat} {rest : List Nat} (inv : SInvB gh st (
     have htf : st.term.freed = false := by
       cases htf : st.term.freed with
       | false => rfl
-      | true => exact absurd (.inr (by simp)) (inv.term_dead htf)
+      | true => exact absurd (.inr (by simp)) (inv.term_dead htf).1
     have hheld := inv.term_held htf (.inr (by simp))
     have hterm : (setX st2 0 { getX st2 0 with pen := .null }).term = st.term := by simp [htm2]
     rw [hterm]
@@ -492,8 +493,11 @@ theorem releaseWin_ok {st : St} {d : Nat} {rest : List Nat} (inv : SInvB gh st (
       simp only [dropped_freed, decide_eq_false_iff_not] at hf
       simp only [dropped_refcount, dropped_appRefs]
       constructor <;> omega
-    · intro _ h
-      exact hnoroot (by simpa [setX, ht2] using h)
+    · intro hf
+      refine ⟨fun h => hnoroot (by simpa [setX, ht2] using h), ?_⟩
+      simp only [dropped_freed, decide_eq_true_eq] at hf
+      simp only [dropped_appRefs]
+      constructor <;> omega
   · simp only [hd0, if_false, pure_ok]
     rcases base with b | b
     · exact ⟨_, rfl, b, by simp [ht2], happ⟩
@@ -666,8 +670,8 @@ theorem unrefT_ok {cfg : Cfg} (R : Repaired cfg) {st : St} (inv : SInvB gh st []
         rintro (h' | h')
         · exact h (hroot.2 h')
         · simp at h')
-    · intro hf h
-      exact inv.term_dead hf (.inl (hroot.1 h))
+    · intro hf
+      exact ⟨fun h => (inv.term_dead hf).1 (.inl (hroot.1 h)), (inv.term_dead hf).2⟩
     · -- the counts of the survivors
       intro i w' hli
       cases h0 : st.tree.wins[i]? with
@@ -740,10 +744,10 @@ theorem unrefT_ok {cfg : Cfg} (R : Repaired cfg) {st : St} (inv : SInvB gh st []
           by_cases h0 : (0 : Nat) = x
           · subst h0; exact ⟨_, hl0⟩
           · exact ⟨r, by rw [set_get_ne _ (Ne.symm h0)]; exact hr.1, hr.2⟩
-      intro hf h
-    · exact inv.term_held hf (by rcases h with h | h; exact .inl (hroot.1 h); simp at h)
-    · exact inv.term_free hf (by rintro (h' | h'); exact h (.inl (hroot.2 h')); simp at h')
-    · exact inv.term_dead hf (by rcases h with h | h; exact .inl (hroot.1 h); simp at h)
+      intro hf
+    · intro h; exact inv.term_held hf (by rcases h with h | h; exact .inl (hroot.1 h); simp at h)
+    · intro h; exact inv.term_free hf (by rintro (h' | h'); exact h (.inl (hroot.2 h')); simp at h')
+    · exact ⟨fun h => (inv.term_dead hf).1 (by rcases h with h | h; exact .inl (hroot.1 h); simp at h), (inv.term_dead hf).2⟩
 
 theorem heldW_spec {st : St} {i : Nat} (h : heldW st i = true) : ∃ w, LiveW st.tree i w ∧ 0 < (getX st i).appRefs := by
   unfold heldW at h
